@@ -687,6 +687,7 @@ func (d *driver) gotOffer(c *client, m map[string]any) {
 
 func (d *driver) http(name, method, path string, headers map[string]any, body string, user, pass string) {
 	ev := d.doHTTP(name, method, path, headers, body, user, pass, true)
+	delete(ev, "rawbody")
 	ev["digest"], ev["parts"] = d.stateDigest(), d.parts()
 	if d.roots {
 		ev["roots"] = d.rootDigests()
@@ -729,6 +730,78 @@ func (d *driver) httprace(name string, reqs []any) {
 		}
 	}
 	d.emit(map[string]any{"ev": "httprace", "name": name, "statuses": statuses, "oks": oks, "leaks": leaks, "digest": d.stateDigest(), "parts": d.parts()})
+}
+
+// lock-free readers against one writer: every (tag, body) pair any reader was served
+func (d *driver) readrace(name string, rd []any, writes []any, nreaders int) {
+	if len(rd) < 8 {
+		return
+	}
+	type pair struct{ etag, body string }
+	var mu sync.Mutex
+	seen := map[pair]int{}
+	var stop atomic.Bool
+	var wg sync.WaitGroup
+	reads := atomic.Int64{}
+	noresp := atomic.Int64{}
+	hd, _ := rd[4].(map[string]any)
+	for i := 0; i < nreaders; i++ {
+		wg.Add(1)
+		go func() {
+			defer wg.Done()
+			for !stop.Load() {
+				r := d.doHTTP("", str(rd[2]), str(rd[3]), hd, "", str(rd[6]), str(rd[7]), false)
+				st, _ := r["status"].(int)
+				reads.Add(1)
+				if st == -1 {
+					noresp.Add(1)
+				}
+				if st == 200 {
+					mu.Lock()
+					seen[pair{str(r["etag"]), str(r["rawbody"])}]++
+					mu.Unlock()
+				}
+			}
+		}()
+	}
+	acked := 0
+	for _, wr := range writes {
+		a, _ := wr.([]any)
+		if len(a) < 8 {
+			continue
+		}
+		h, _ := a[4].(map[string]any)
+		r := d.doHTTP("", str(a[2]), str(a[3]), h, str(a[5]), str(a[6]), str(a[7]), false)
+		if st, _ := r["status"].(int); st >= 200 && st < 300 {
+			acked++
+		}
+	}
+	stop.Store(true)
+	wg.Wait()
+	bodies := map[string]map[string]bool{}
+	partial := 0
+	for p := range seen {
+		if bodies[p.etag] == nil {
+			bodies[p.etag] = map[string]bool{}
+		}
+		bodies[p.etag][p.body] = true
+		var v any
+		if json.Unmarshal([]byte(p.body), &v) != nil {
+			partial++
+		}
+	}
+	conflicts := [][]string{}
+	for t, bs := range bodies {
+		if len(bs) > 1 {
+			l := []string{t}
+			for b := range bs {
+				l = append(l, b)
+			}
+			conflicts = append(conflicts, l)
+		}
+	}
+	d.emit(map[string]any{"ev": "readrace", "name": name, "reads": reads.Load(), "noresp": noresp.Load(), "acked": acked, "versions": len(bodies), "conflicts": conflicts, "partial": partial,
+		"digest": d.stateDigest(), "parts": d.parts()})
 }
 
 func (d *driver) doHTTP(name, method, path string, headers map[string]any, body string, user, pass string, capture bool) map[string]any {
@@ -805,7 +878,7 @@ func (d *driver) doHTTP(name, method, path string, headers map[string]any, body 
 	}
 	return map[string]any{"ev": "http", "name": name, "method": method, "path": path, "status": resp.StatusCode, "etag": resp.Header.Get("ETag"), "members": members,
 		"body": bs, "leaks": leaks, "ctype": resp.Header.Get("Content-Type"), "allow": resp.Header.Get("Allow"),
-		"location": resp.Header.Get("Location")}
+		"location": resp.Header.Get("Location"), "rawbody": string(b)}
 }
 
 // digest of everything the administrative API may change
@@ -1070,6 +1143,10 @@ func (d *driver) runBeh(b beh, idx int) {
 		case "rawhttp":
 			h, _ := st[4].(map[string]any)
 			d.rawhttp(str(st[1]), str(st[2]), str(st[3]), h, str(st[5]), str(st[6]), str(st[7]))
+		case "readrace":
+			rd, _ := st[2].([]any)
+			ws, _ := st[3].([]any)
+			d.readrace(str(st[1]), rd, ws, num(st[4]))
 		case "httprace":
 			rs, _ := st[2].([]any)
 			d.httprace(str(st[1]), rs)
